@@ -4,8 +4,9 @@ import TracklibVerif.Lemmas.TextIOGpxAF
 /-! # C13 — tracks and networks written to file are read back unchanged
 
 Theorems about the model `TV.TextIO` (`Model/TextIO.lean`), which mirrors
-`TrackWriter.writeToFile` / `TrackReader.__readFromCsv`, `ObsTime.__str__` / `readTimestamp`,
-`NetworkWriter.writeToCsv` / `NetworkReader.readFromFile`, `Track.toWKT` / `TrackReader.parseWkt`.
+`TrackWriter.writeToFile` / `TrackReader.__readFromCsv` (including `read_all`), `ObsTime.__str__` / `readTimestamp`,
+`NetworkWriter.writeToCsv` / `NetworkReader.readFromFile`, `Track.toWKT` / `TrackReader.parseWkt`,
+`TrackWriter.writeToGpx` (with and without `af=True`) / `TrackReader.__readFromGpx`.
 Numbers are scaled integers: `v : SNum` at `d` decimals stands for the float `±mag / 10^d`, which is what
 Python's `format` prints on that lattice (that contract, `float()` and the rounding of off-lattice
 values are exercised by the correspondence check, not proved). -/
@@ -265,8 +266,10 @@ theorem network_row_roundtrip (sep : Char) (hs : SepOK sep) (hdr d : Nat) (e : N
 
 /-- **T4 (network file)** `net_file_roundtrip`: a network written with its header line (`h=1`) and read with
 `header=1`, or written without header (`h=0`) and read with `header=0`, gives back all edges in order, each
-equal to what was written. The node table of the result is `nodesOf` of these edges: identifiers in order of
-first appearance, each at the end vertex of the first edge that mentions it. -/
+equal to what was written — every vertex of every geometry, whether or not the network is topologically exact (edges that
+share a node id may end beside the position the node was registered with: the geometry is not touched). The node table of
+the result is `nodesOf` of these edges: identifiers in order of first appearance, each at the end vertex of the first edge
+that mentions it (`Network.addNode` ignores a later node with the same id). -/
 theorem net_file_roundtrip (sep : Char) (hs : SepOK sep) (d : Nat) (es : List NEdge) (he : ∀ e ∈ es, EdgeOK sep e) :
     netRead ⟨0, 1, 2, 3, 4, sep, 1⟩ (netWrite sep 1 d es) = .ok (es.map (expEdge d))
     ∧ netRead ⟨0, 1, 2, 3, 4, sep, 0⟩ (netWrite sep 0 d es) = .ok (es.map (expEdge d)) :=
@@ -327,6 +330,17 @@ example : AFOK ';' (.str "walk".toList) ∧ ';' ∉ colChars := by
 /-- the network reader with `header=0` keeps the first record -/
 example : (netRead ⟨0, 1, 2, 3, 4, ',', 0⟩ "e1,a,b,-1,\"LINESTRING(0.0 0.0,1.5 -2.25)\"\n".toList).toOption
     = some [⟨"e1".toList, "a".toList, "b".toList, -1, [((0, 1), (0, 1), (0, 0)), ((15, 1), (-225, 2), (0, 0))]⟩] := by decide +kernel
+
+/-- a network that is not topologically exact: `e2` starts 25 cm beside node `b`. Its geometry comes back as written and `b`
+keeps the position `e1` registered -/
+example : (netRead ⟨0, 1, 2, 3, 4, ',', 1⟩ (netWrite ',' 1 3 [⟨"e1".toList, "a".toList, "b".toList, 1, [(0, 0), (10000, 0)]⟩,
+      ⟨"e2".toList, "b".toList, "c".toList, 0, [(10250, 500), (20000, 5000)]⟩])).toOption
+    = some [⟨"e1".toList, "a".toList, "b".toList, 1, [((0, 1), (0, 1), (0, 0)), ((100, 1), (0, 1), (0, 0))]⟩,
+            ⟨"e2".toList, "b".toList, "c".toList, 0, [((1025, 2), (5, 1), (0, 0)), ((200, 1), (50, 1), (0, 0))]⟩]
+    ∧ (nodesOf [⟨"e1".toList, "a".toList, "b".toList, 1, [((0, 1), (0, 1), (0, 0)), ((100, 1), (0, 1), (0, 0))]⟩,
+            ⟨"e2".toList, "b".toList, "c".toList, 0, [((1025, 2), (5, 1), (0, 0)), ((200, 1), (50, 1), (0, 0))]⟩]).map (fun n => n.2)
+      = [((0, 1), (0, 1), (0, 0)), ((100, 1), (0, 1), (0, 0)), ((200, 1), (50, 1), (0, 0))] := by
+  decide +kernel
 
 /-- counter-example documenting the separator precondition: with the blank separator the default
 time format is split, and the timestamp written last reads back as `ObsTime()` (the defect listed as
